@@ -257,8 +257,27 @@ def degenerate_case(draw):
 
 
 @st.composite
-def spike_case(draw):
-    """Flat / linear / noisy base far from zero (both signs) with a few spikes and gaps: the inputs on which robust weights get extreme."""
+def spike_case(draw, simple=False):
+    """Flat / linear / noisy base far from zero (both signs) with a few spikes and gaps: the inputs on which robust weights get extreme.
+    simple: short, exactly flat, below zero, one upward spike and a few gaps - the bisquare step then wants to reject every flat cell."""
+    if simple:
+        n = draw(st.integers(6, 25))
+        level = -draw(st.integers(50, 3000))
+        y = [level] * n
+        y[draw(st.integers(0, n - 1))] += draw(st.integers(200, 3000))
+        if draw(st.booleans()):
+            y[draw(st.integers(0, n - 1))] -= draw(st.integers(100, 1500))
+        ng = draw(st.integers(1, 3))
+        valid = [True] * n
+        for q in draw(st.lists(st.integers(0, n - 1), min_size=ng, max_size=ng, unique=True)):
+            valid[q] = False
+        if sum(valid) < 5:
+            valid = [True] * n
+        nd = gens.placeholder_for(y, valid, draw(st.sampled_from(["below", "above"])))
+        case = {"y": y, "valid": valid, "nodata": nd, "gcls": "isolated", "sr": draw(_sr()), "ycls": "flat_one_spike_up"}
+        if draw(st.booleans()):
+            case["p"] = draw(gens.pvals)
+        return case
     n = draw(st.integers(5, 80))
     level = draw(st.sampled_from([-1, 1])) * draw(st.integers(50, 6000))
     slope = draw(st.sampled_from([0, 0, 1, -2, 7]))
@@ -324,8 +343,8 @@ def run(ctx):
             rec.case("robust_ref", None, count=0, cls="matched_a_fallback_outcome")
         rec.case("robust_ref", case, nontrivial=why is None, cls=["wcvp_r" if "p" in case else "wcv_r", "gap:" + case["gcls"], "y:" + case["ycls"]])
 
-    ctx.given("robust_ref", st.one_of(gcase(ctx.n(100, 200), classes=["seasonal", "walk", "iid", "step", "seasonal"]), spike_case()),
-              ctx.n(700, 10000), fn=f_rob)
+    ctx.given("robust_ref", st.one_of(gcase(ctx.n(100, 200), classes=["seasonal", "walk", "iid", "step", "seasonal"]), spike_case(), spike_case(simple=True)),
+              ctx.n(900, 12000), fn=f_rob)
 
     def f_deg(case):
         rec.case("robust_degenerate", case, nontrivial=True, cls=["family:" + case["family"], "gap:" + case["gcls"], "p" if "p" in case else "nop"])
@@ -339,7 +358,7 @@ def run(ctx):
             rec.discard("robust_curve", why)
         rec.case("robust_curve", case, nontrivial=why is None, cls=["y:" + case["ycls"], "gap:" + case["gcls"], "p" if "p" in case else "nop"])
 
-    ctx.given("robust_curve", st.one_of(spike_case(), spike_case(), gcase(ctx.n(100, 200), classes=["seasonal", "walk", "iid", "step", "flat_spikes"])),
+    ctx.given("robust_curve", st.one_of(spike_case(), spike_case(simple=True), gcase(ctx.n(100, 200), classes=["seasonal", "walk", "iid", "step", "flat_spikes"])),
               ctx.n(900, 12000), fn=f_cv)
 
     def f_ph(case):
